@@ -425,6 +425,130 @@ pub fn execute(prefix: &[Op], batch: &[Op], choices: &[usize]) -> Result<(Sessio
     Ok((s, widths, trace, true))
 }
 
+/// What the dictionaries on disk held after each step of a batch, and when each handler's
+/// configuration answer was delivered.
+pub struct Timeline {
+    /// per step: (user words, file words per document)
+    pub dicts: Vec<(BTreeSet<String>, Vec<BTreeSet<String>>)>,
+    /// per batch operation index: step at which its workspace/configuration answer was delivered
+    pub answer_step: Vec<Option<usize>>,
+    /// number of enabled events at each choice point
+    pub widths: Vec<usize>,
+}
+
+fn read_words(p: &std::path::Path) -> BTreeSet<String> {
+    std::fs::read_to_string(p).map(|t| t.lines().map(|l| l.to_string()).collect()).unwrap_or_default()
+}
+
+/// Like `execute`, but steps the batch one event at a time and records the timeline.
+pub fn execute_observed(prefix: &[Op], batch: &[Op], choices: &[usize]) -> Result<(Session, Timeline, bool), String> {
+    let mut s = Session::new("c09")?;
+    for op in prefix {
+        if !s.applicable(op) {
+            return Ok((s, Timeline { dicts: vec![], answer_step: vec![], widths: vec![] }, false));
+        }
+        s.send(op);
+        s.server.run_default()?;
+    }
+    let first_task = s.server.tasks.len();
+    for op in batch {
+        if !s.applicable(op) {
+            return Ok((s, Timeline { dicts: vec![], answer_step: vec![], widths: vec![] }, false));
+        }
+        s.send(op);
+    }
+    s.server.admit_first = true;
+    let answered0 = s.server.answered.len();
+    let mut tl = Timeline { dicts: vec![], answer_step: vec![None; batch.len()], widths: vec![] };
+    let snap = |s: &Session| (read_words(&s.world.user_dict), (0..s.client.docs.len()).map(|d| read_words(&s.file_dict_path(d))).collect::<Vec<_>>());
+    tl.dicts.push(snap(&s));
+    let mut k = 0;
+    while !s.server.quiescent() {
+        let evs = s.server.enabled();
+        if evs.is_empty() {
+            return Err("deadlock".into());
+        }
+        let c = choices.get(k).copied().unwrap_or(0);
+        if c >= evs.len() {
+            return Err(format!("replay divergence at choice {k}"));
+        }
+        tl.widths.push(evs.len());
+        let ev = evs[c].clone();
+        s.server.step(&ev)?;
+        tl.dicts.push(snap(&s));
+        k += 1;
+        if let Event::Answer(_) = ev {
+            if let Some((_, Some(t), _)) = s.server.answered.last() {
+                if *t >= first_task && *t - first_task < batch.len() && tl.answer_step[*t - first_task].is_none() {
+                    tl.answer_step[*t - first_task] = Some(tl.dicts.len() - 1);
+                }
+            }
+        }
+        if k > 20000 {
+            return Err("livelock".into());
+        }
+    }
+    let _ = answered0;
+    Ok((s, tl, true))
+}
+
+fn touches(op: &Op, d: usize) -> bool {
+    match op {
+        Op::Open(x, _) | Op::Change(x, _) | Op::Save(x) | Op::AddFile(x, _) | Op::Ignore(x) => *x == d,
+        Op::AddUser(..) | Op::Config(..) => true,
+        _ => false,
+    }
+}
+
+/// F16 as-is clause, narrow form. On the current code every handler that (re)lints a document
+/// loads the dictionaries AFTER its own configuration answer arrived and installs text + dictionary
+/// under the document lock; handlers that are in flight together may take that lock in any order.
+/// So the final publication for document `d` may be that of ANY text the batch (or the state before
+/// it) gave the document, under ANY dictionary state that existed on disk at or after the earliest
+/// configuration answer of a handler touching `d` — but not an older one; and a closed document can
+/// only come back through a didOpen of the batch.
+fn f16_explains_narrow(pre: &Client, post: &Client, batch: &[Op], d: usize, published: &Option<Vec<Value>>, tl: &Timeline) -> bool {
+    let Some(p) = published else { return false };
+    let closing = batch.iter().any(|o| matches!(o, Op::Close(x) | Op::Delete(x) if *x == d));
+    let opening = batch.iter().any(|o| matches!(o, Op::Open(x, _) if *x == d));
+    if p.is_empty() && (closing || opening) {
+        return true; // an overtaken close, or a not-yet-open state
+    }
+    if !p.is_empty() && !post.docs[d].open && !opening {
+        return false; // only a didOpen carries the language id that can re-create a closed document
+    }
+    let t_min = batch.iter().enumerate().filter(|(_, o)| touches(o, d)).filter_map(|(i, _)| tl.answer_step.get(i).cloned().flatten()).min();
+    let Some(t_min) = t_min else { return false };
+    let mut texts: Vec<String> = vec![pre.docs[d].text.clone(), post.docs[d].text.clone()];
+    for op in batch {
+        match op {
+            Op::Open(x, t) | Op::Change(x, t) if *x == d => texts.push(TEXTS[*t].to_string()),
+            _ => {}
+        }
+    }
+    let mut wordsets: Vec<BTreeSet<String>> = vec![];
+    for (u, f) in tl.dicts.iter().skip(t_min) {
+        let mut w = u.clone();
+        w.extend(f[d].iter().cloned());
+        if !wordsets.contains(&w) {
+            wordsets.push(w);
+        }
+    }
+    let ignored_options: [&[(String, Lint)]; 2] = [&pre.ignored[d], &post.ignored[d]];
+    for t in &texts {
+        for w in &wordsets {
+            for cfg in [pre.config, post.config] {
+                for ig in ignored_options {
+                    if &ref_diag_ignoring(t, post.docs[d].lang, w, cfg, ig) == p {
+                        return true;
+                    }
+                }
+            }
+        }
+    }
+    false
+}
+
 /// F16 as-is clause: with overlapping handlers and a non-FIFO schedule the final publication may be
 /// that of any text the batch (or the state before it) gave the document, under any dictionary /
 /// configuration state reached during the batch.
@@ -592,8 +716,8 @@ pub fn run(tier: Tier) -> i32 {
             let mut stack: Vec<Vec<usize>> = vec![vec![]];
             let mut first = true;
             while let Some(choices) = stack.pop() {
-                let r = catch(|| execute(prefix, batch, &choices));
-                let (sess, widths, trace, ok) = match r {
+                let r = catch(|| execute_observed(prefix, batch, &choices));
+                let (sess, tl, ok) = match r {
                     Ok(Ok(x)) => x,
                     Ok(Err(e)) => {
                         if e.starts_with("replay divergence") {
@@ -621,6 +745,8 @@ pub fn run(tier: Tier) -> i32 {
                 if !ok {
                     break; // batch not applicable in this client state
                 }
+                let trace: Vec<String> = sess.server.trace[sess.server.trace.len() - (tl.dicts.len() - 1)..].to_vec();
+                let widths: Vec<usize> = tl.widths.clone();
                 if first {
                     batches += 1;
                     first = false;
@@ -652,7 +778,7 @@ pub fn run(tier: Tier) -> i32 {
                     for op in prefix {
                         model_only(&mut pre, op);
                     }
-                    if overlap && f16_explains(&pre, &sess.client, batch, d, &published) {
+                    if overlap && f16_explains_narrow(&pre, &sess.client, batch, d, &published, &tl) {
                         f16 += 1;
                         if !viols.iter().any(|v| v.sig.starts_with("F16")) {
                             viols.push(Violation { sig: "F16-overtaking-handlers".into(), case: describe(prefix, batch, &choices, &trace), detail });
